@@ -7,7 +7,7 @@
    shape as the rows of A); drivers print it flattened.
    Uninitialised memory: diagonal(A) leaves cells of rows without a diagonal entry
    unwritten -> explicit [junk] input (MatOps.diagonal).
-   pointwise_matrix: modelled HERE (prefix pwm_), following the current code (/repo 2f75975: the entry
+   pointwise_matrix: modelled HERE (prefix pwm_), following the current code (/repo 0e81e11: the entry
    that ends the scan of a block column is no longer consumed).  coq/MatOps2.v of the matops
    group still described the pre-fix code when this was written. *)
 From Amgcl Require Import Scalar Vec Crs Kernels MatOps.
@@ -189,7 +189,7 @@ Definition remove_small (bs min_aggr : nat) (count : nat) (id : list Z) : nat * 
    For block row ip the code keeps one cursor j[k] per scalar row ia+k, ia = ip*bs; for every
    entry (cp, sp0) of Ap's row it advances each cursor while A.col[beg] < (cp+1)*bs and writes
        strong[beg] = sp && A.col[beg] != (ia + k),     sp = (cp == ip) || sp0
-   (since /repo 384f188 ia is no longer advanced by the id loop: ia + k is the row's own
+   (since /repo 09e5c12 ia is no longer advanced by the id loop: ia + k is the row's own
    diagonal).  Entries never reached keep the 0 of vector::resize. *)
 Fixpoint take_lt (col_end : nat) (sp : bool) (excl : nat) (r : list nat) : list bool * list nat :=
   match r with
